@@ -1,7 +1,7 @@
 (* C10 - Re-linking compiled output is a fixpoint.  Statements only; proofs are in Proofs/Relink.v. *)
 From Coq Require Import List Bool String.
 From PV Require Import Model.Relink Proofs.Relink.
-From PV Require Import Model.JsonNames Proofs.JsonNames.
+From PV Require Import Model.JsonNames Proofs.JsonNames Model.MapRelink Proofs.MapRelink.
 Import ListNotations.
 
 (* A reference with a leading dot resolves to exactly the name it spells (if that name is visible), whatever
@@ -70,3 +70,31 @@ Example C10_nonvacuous_json :
   validate true true [a; b] = [EErr] /\ validate true false [a; b] = [EErr] /\
   claim true true c = ("xY", true) /\ claim true false c = ("xY", false).
 Proof. vm_compute. repeat split; reflexivity. Qed.
+
+(* References to synthetic map entries on the second pass (no AST). The fields of a message compiled from source: every
+   map field is repeated and its entry is named after it. The code as it is accepts them all PROVIDED the repeated fields
+   of the message - map fields or not - claim pairwise different entry names; without the proviso this is refuted (a
+   repeated int32 Foo_bar before map foo_bar: the scan of the earlier fields does not look at what they refer to), which
+   is the known finding map-entry-twin. The repaired scan (fixes/C10-map-entry-twin.diff) needs only that the map fields
+   have different entry names, which every accepted source has (two equal entry names are a duplicate symbol). *)
+Theorem C10_relink_map_fields_partial : forall fs,
+  Forall from_source fs -> NoDup (repeated_entry_names fs) -> relink_errors [] fs = 0.
+Proof. exact relink_map_fields_partial_lemma. Qed.
+Print Assumptions C10_relink_map_fields_partial.
+
+Theorem C10_relink_map_fields_refuted : exists fs,
+  Forall from_source fs /\ NoDup (map_entry_names fs) /\ relink_errors [] fs = 1.
+Proof. exact relink_map_fields_refuted_lemma. Qed.
+Print Assumptions C10_relink_map_fields_refuted.
+
+Theorem C10_relink_map_fields_repaired : forall fs,
+  Forall from_source fs -> NoDup (map_entry_names fs) -> relink_errors_repaired [] fs = 0.
+Proof. exact relink_map_fields_repaired_lemma. Qed.
+Print Assumptions C10_relink_map_fields_repaired.
+
+(* non-vacuity: a map field with a custom json_name is accepted whatever the JSON name is (the entry is named after the
+   field's NAME); an explicit second reference to the same entry is an error *)
+Example C10_nonvacuous_map :
+  relink_errors [] [mkmf "name" "NameEntry" false None; mkmf "attrs" "AttrsEntry" true (Some "AttrsEntry")] = 0 /\
+  relink_errors [] [mkmf "attrs" "AttrsEntry" true (Some "AttrsEntry"); mkmf "again" "AgainEntry" true (Some "AttrsEntry")] = 1.
+Proof. vm_compute. split; reflexivity. Qed.
